@@ -83,3 +83,32 @@ Definition null_leaf {A} : leaf A :=
 Definition CNull {A} : cond A := CLeaf null_leaf.
 Definition is_null_leaf {A} (l : leaf A) : bool := String.eqb (l_cls l) "NullCondition".
 Definition is_null {A} (c : cond A) : bool := match c with CLeaf l => is_null_leaf l | _ => false end.
+
+(* DSL terms: what the harness and the theorems quantify over *)
+Inductive dslc (A : Type) :=
+| DLeaf (cls method : string) (pos : list A) (kw : list (string * A))
+| DNull
+| DBin (o : bop) (a b : dslc A).
+Arguments DLeaf {A}. Arguments DNull {A}. Arguments DBin {A}.
+
+(* path terms: how parts and paths are written with the Python API *)
+Section PathTerms.
+  Variable A : Type.
+  (* a key= / index= / value= / condition= argument: a raw value or a condition *)
+  Inductive carg := KLit (v : pyval) | KCond (c : dslc A).
+
+  Inductive pterm :=
+  | PtPrim (v : pyval)
+  | PtMap (key value cnd : option carg) (label : option pyval)
+  | PtList (index value cnd : option carg) (label : option pyval)
+  | PtMol (key index value lcnd mcnd cnd : option carg) (label : option pyval).
+
+  Record pathterm := {
+    pt_parts : list pterm;
+    pt_mods : list string;          (* modifier methods applied in this order: "length", "first", ... *)
+    pt_src : option pyval
+  }.
+End PathTerms.
+Arguments KLit {A}. Arguments KCond {A}.
+Arguments PtPrim {A}. Arguments PtMap {A}. Arguments PtList {A}. Arguments PtMol {A}.
+Arguments pt_parts {A}. Arguments pt_mods {A}. Arguments pt_src {A}. Arguments Build_pathterm {A}.
